@@ -30,6 +30,17 @@ theorem sum_map_tail_snoc'' (f : K → K) (l : List K) (old x : K) (h : l.head? 
       List.sum_nil]
     ring
 
+/-- the clamp `.min(1.0)` of the implementation does nothing while both sums are non-negative (it only matters for the
+    rounding residue of the float run) -/
+theorem smin_cmo_eq {up dn : K} (hu : 0 ≤ up) (hd : 0 ≤ dn) (hz : up + dn ≠ 0) :
+    smin (sabs ((up - dn) / (up + dn))) 1 = sabs ((up - dn) / (up + dn)) := by
+  have hpos : 0 < up + dn := lt_of_le_of_ne (by linarith) (Ne.symm hz)
+  have h1 : sabs ((up - dn) / (up + dn)) ≤ 1 := by
+    rw [sabs_eq_abs, abs_div, abs_of_pos hpos, div_le_one hpos, abs_le]
+    constructor <;> linarith
+  unfold smin
+  rw [if_neg (not_lt.mpr h1)]
+
 namespace Vidya
 
 /-- one step of the definition: from the previous output and the window of changes -/
@@ -129,14 +140,15 @@ theorem next_spec {P n : Nat} {v : K} {hist : List K} {s : Vidya K} (x : K) (hn0
   set dn := s.dn_sum + left * ind (decide (left < 0)) - (x - s.last_input) * ind (decide (x - s.last_input < 0)) with hdndef
   have hup0 : 0 ≤ up := by rw [← hup]; exact sum_map_nonneg' _ posPart_nonneg _
   have hdn0 : 0 ≤ dn := by rw [← hdn]; exact sum_map_nonneg' _ negPart_nonneg _
-  have hout : (if up + dn ≠ 0 then x * (s.f * sabs ((up - dn) / (up + dn))) + (1 - s.f * sabs ((up - dn) / (up + dn))) * s.last_output else x) =
+  have hout : (if up + dn ≠ 0 then x * (s.f * smin (sabs ((up - dn) / (up + dn))) 1) + (1 - s.f * smin (sabs ((up - dn) / (up + dn))) 1) * s.last_output else x) =
       Spec.vidya n v (hist ++ [x]) := by
     rw [vidya_snoc, stepOut, hup, hdn, ← h.lout, ← h.f]
     by_cases hz : up + dn = 0
     · simp only [hz, ne_eq, not_true_eq_false, ↓reduceIte]
-    · simp only [hz, ne_eq, not_false_eq_true, ↓reduceIte]
+    · rw [smin_cmo_eq hup0 hdn0 hz]
+      simp only [hz, ne_eq, not_false_eq_true, ↓reduceIte]
   refine ⟨_, { s with up_sum := up, dn_sum := dn, last_input := x,
-                      last_output := (if up + dn ≠ 0 then x * (s.f * sabs ((up - dn) / (up + dn))) + (1 - s.f * sabs ((up - dn) / (up + dn))) * s.last_output else x),
+                      last_output := (if up + dn ≠ 0 then x * (s.f * smin (sabs ((up - dn) / (up + dn))) 1) + (1 - s.f * smin (sabs ((up - dn) / (up + dn))) 1) * s.last_output else x),
                       window := w' },
     by unfold Vidya.next; simp only [hp]; rfl, ⟨?_, h.f, hup.symm, hdn.symm, (lastOr_snoc v hist x).symm, hout⟩, hout⟩
   rw [changes_snoc, ← List.append_assoc, ← h.lin]; exact ht'
